@@ -146,6 +146,31 @@ func (l *local) netAddrCase(ip net.IP, zone string, port int) {
 			l.viol(fmt.Sprintf("NetAddr-accepts:%T:%x", a, []byte(ip)), fmt.Sprintf("NetAddrToAddrPort(%T with IP %x of len %d) produced the valid address %v", a, []byte(ip), len(ip), got), c)
 		}
 	}
+	// an address whose AddrPort() answers differently on every call (a roaming peer, an address mutated by its
+	// owner): the result must be one snapshot, unmapped - never the address of one and the port of another
+	if want.IsValid() {
+		snaps := []netip.AddrPort{
+			netip.AddrPortFrom(netip.AddrFrom16([16]byte{10: 0xff, 11: 0xff, 12: 5, 13: 6, 14: 7, 15: 8}), 2000),
+			netip.AddrPortFrom(netip.MustParseAddr("2001:db8::1%eth0"), 3000),
+			netip.AddrPortFrom(netip.MustParseAddr("9.9.9.9"), 4000),
+		}
+		first := netip.AddrPortFrom(want, uint16(port))
+		if b4, ok := as4(ip); ok && len(ip) == 16 {
+			first = netip.AddrPortFrom(netip.AddrFrom16([16]byte{10: 0xff, 11: 0xff, 12: b4[0], 13: b4[1], 14: b4[2], 15: b4[3]}), uint16(port))
+		}
+		ra := &roamingAddr{snaps: append([]netip.AddrPort{first}, snaps...)}
+		got := netutil.NetAddrToAddrPort(ra)
+		l.e++
+		ok := false
+		for _, sn := range ra.snaps {
+			if got == netip.AddrPortFrom(sn.Addr().Unmap(), sn.Port()) {
+				ok = true
+			}
+		}
+		if !ok {
+			l.viol(fmt.Sprintf("NetAddr-roaming:%x%%%s:%d", []byte(ip), zone, port), fmt.Sprintf("NetAddrToAddrPort(an address whose AddrPort() returns %v in turn) = %v: not the unmapped form of any one of them (AddrPort was called %d times)", ra.snaps, got, ra.calls), c)
+		}
+	}
 	l.e += 3
 	for _, a := range []net.Addr{&net.IPAddr{IP: ip, Zone: zone}, &net.UnixAddr{Name: "/x", Net: "unix"}, plainAddr{}} {
 		if got := netutil.NetAddrToAddrPort(a); got != (netip.AddrPort{}) {
@@ -593,4 +618,18 @@ func TestSort(t *testing.T) {
 	if r.Finish() > 0 {
 		t.Fail()
 	}
+}
+
+// roamingAddr answers AddrPort() with the next snapshot on every call.
+type roamingAddr struct {
+	snaps []netip.AddrPort
+	calls int
+}
+
+func (r *roamingAddr) Network() string { return "udp" }
+func (r *roamingAddr) String() string  { return "roaming" }
+func (r *roamingAddr) AddrPort() netip.AddrPort {
+	ap := r.snaps[min(r.calls, len(r.snaps)-1)]
+	r.calls++
+	return ap
 }
